@@ -24,7 +24,7 @@ PAgain(k) == /\ k \notin Leavers /\ phase[k] \in 1..4 /\ ~h[k].alive /\ k \notin
              /\ \A i \in 1..Len(mq) : mq[i].k # k
              /\ Adv(k, 0) /\ UNCHANGED vars
 PLeave(k) == k \in Leavers /\ phase[k] \in 1..4 /\ h[k].alive /\ HEof(k) /\ Adv(k, 5)
-Client == \/ \E k \in Peers : HBroadHave(k) \/ HBroadState(k) \/ (\E n \in Pipeline : HReply(k, n))
+Client == \/ \E k \in Peers : HBroadHave(k) \/ HBroadState(k) \/ HBroadReleased(k) \/ (\E n \in Pipeline : HReply(k, n))
           \/ ManagerStep
 LStep == \/ \E k \in Peers : PConnect(k) \/ PHandshake(k) \/ PBitfield(k) \/ PUnchoke(k) \/ PServe(k) \/ PLeave(k) \/ PAgain(k)
          \/ (Client /\ UNCHANGED phase)
